@@ -10,6 +10,9 @@ CHECKS = {
     "C16": ("CrossHair symbolic execution of PluginRef/PluginGroup/register_in_group/ep-name codec + z3 regex-inclusion lemmas generated from the repo's regex constants",
             "trusted: CrossHair 0.0.110 + z3 5.1 models of CPython str/int/tuple; launcher shims (DESIGN 2); PluginRef.construct stand-ins; _load_plugin stubbed; bounds: strings<=2, <=3 registrations, versions 0..1 (0..2 thorough), codec components 0..999",
             "4/C16"),
+    "C14": ("CrossHair symbolic execution of the real PartialModel merge code (symbolic field values, unbounded ints) against a reference merge; pure-Python pydantic build so values stay symbolic through validation",
+            "trusted: CrossHair/z3 models of list/set/dict/str/int; pure-Python pydantic 1.10 sources == compiled build; construct() stand-ins; repr() in partial.py stubbed (message formatting); bounds: strings<=2, lists<=2, sets<=2, 2-3 operands, model family defined in the harness",
+            "4/C14"),
 }
 
 NA = {
